@@ -203,6 +203,25 @@ func isUserF(call *ssa.Call) bool {
 	return path(call.Call.Value) == "f"
 }
 
+// deepFrames: the functions reachable from root through static in-package calls, each once, with a call chain leading to it.
+type deepFrame struct {
+	f     *ssa.Function
+	chain []*ssa.Call
+}
+
+func deepFrames(root *ssa.Function, depth int) []deepFrame {
+	var out []deepFrame
+	seen := map[*ssa.Function]bool{}
+	for _, di := range deepInstrs(root, depth) {
+		f := di.in.Parent()
+		if !seen[f] {
+			seen[f] = true
+			out = append(out, deepFrame{f, di.calls})
+		}
+	}
+	return out
+}
+
 func ruleGroupNoRunAfterStop(c *Ctx, r *R) {
 	ws := groupWorkers(c)
 	for _, n := range []string{"Periodic", "Trigger", "PeriodicOrTrigger"} {
@@ -211,43 +230,94 @@ func ruleGroupNoRunAfterStop(c *Ctx, r *R) {
 			r.undecided("xsync.Group."+n+"|worker", token.NoPos, "worker closure not found")
 			continue
 		}
-		var fcall *ssa.Call
-		instrs(w, func(b *ssa.BasicBlock, i int, in ssa.Instruction) {
-			if call, ok := in.(*ssa.Call); ok && isUserF(call) {
-				fcall = call
+		// typestate per loop iteration: bit0 = g.ctx.Err() == nil was established, bit1 = came out of a blocking select (which
+		// has a g.ctx.Done() arm) through another arm, bit2 = came through the g.ctx.Done() arm. Reset by each run of f.
+		pkg := rootFn(w).Pkg
+		pf := &PF{N: 8, DeepVisit: true, InScope: func(f *ssa.Function) bool { return rootFn(f).Pkg == pkg && f.Blocks != nil && f != w && f.Name() != "spawn" }}
+		isGroupCtx := func(v ssa.Value) bool {
+			for _, lf := range valueLeaves(v, nil, 0) {
+				pv := valueProv(lf.v, provEnv{})
+				if len(pv.fields) == 0 || pv.fields[len(pv.fields)-1] != "ctx" {
+					return false
+				}
 			}
-		})
-		if fcall == nil {
-			r.violated("xsync.Group."+n+"|calls-f", w.Pos(), "worker never calls f")
-			continue
+			return true
 		}
-		// a blocking select with a ctx.Done arm whose body returns, dominating the f call, inside the loop
-		okSel := false
-		for _, op := range chanOpsOf(w) {
-			if op.kind != "select" || !op.blocking {
-				continue
+		pf.Instr = func(f *ssa.Function, in ssa.Instruction, q int) (StateSet, bool) {
+			if call, ok := in.(*ssa.Call); ok && isUserF(call) {
+				return ss(0), true
 			}
-			for _, a := range op.arms {
-				if a.kind == "ctx-done" && strings.HasSuffix(path(resolveVal(a.ctx)), ".ctx") && a.body != nil {
-					if _, isRet := a.body.Instrs[len(a.body.Instrs)-1].(*ssa.Return); isRet || endsInRundefersReturn(a.body) {
-						if op.in.Block().Dominates(fcall.Block()) && reaches(fcall.Block(), op.in.Block()) {
-							okSel = true
-						}
+			return 0, false
+		}
+		pf.Edge = func(f *ssa.Function, g guard, q int) (StateSet, bool) {
+			cf, ok := g.asCmp()
+			if !ok || cf.op != token.EQL {
+				return 0, false
+			}
+			// g.ctx.Err() == nil
+			if ec, ok := cf.x.(*ssa.Call); ok && ec.Call.IsInvoke() && ec.Call.Method.Name() == "Err" && isNilConst(cf.y) && isGroupCtx(ec.Call.Value) {
+				return ss(q | 1), true
+			}
+			ex, ok := cf.x.(*ssa.Extract)
+			if !ok || ex.Index != 0 {
+				return 0, false
+			}
+			sel, ok := ex.Tuple.(*ssa.Select)
+			k, isK := cf.y.(*ssa.Const)
+			if !ok || !isK || k.Value == nil || !sel.Blocking {
+				return 0, false
+			}
+			idx := int(k.Int64())
+			if idx < 0 || idx >= len(sel.States) {
+				return 0, false
+			}
+			hasCtx := false
+			isCtxArm := false
+			for si, st := range sel.States {
+				if st.Dir != types.RecvOnly {
+					continue
+				}
+				if call, ok := resolveVal(st.Chan).(*ssa.Call); ok && call.Call.IsInvoke() && call.Call.Method.Name() == "Done" && isGroupCtx(call.Call.Value) {
+					hasCtx = true
+					if si == idx {
+						isCtxArm = true
 					}
 				}
 			}
-		}
-		r.ok(okSel, "xsync.Group."+n+"|select-before-f", fcall.Pos(), "each call of f must be preceded, in the same loop iteration, by a select whose g.ctx.Done() arm returns")
-		// loop head re-check of ctx.Err()
-		okHead := false
-		for _, g := range guardsOf(fcall.Block()) {
-			if cf, ok := g.asCmp(); ok && cf.op == token.EQL && isNilConst(cf.y) {
-				if ec, ok := cf.x.(*ssa.Call); ok && ec.Call.IsInvoke() && ec.Call.Method.Name() == "Err" && reaches(fcall.Block(), g.blk) {
-					okHead = true
-				}
+			switch {
+			case isCtxArm:
+				return ss(q | 4), true
+			case hasCtx:
+				return ss(q | 2), true
 			}
+			return 0, false
 		}
-		r.ok(okHead, "xsync.Group."+n+"|err-recheck", fcall.Pos(), "the loop must re-check g.ctx.Err() before waiting again (a stopped group must not run f because another arm was also ready)")
+		nf := 0
+		okSel, okHead := true, true
+		var fpos token.Pos
+		pf.Visit = func(f *ssa.Function, in ssa.Instruction, before StateSet) {
+			call, ok := in.(*ssa.Call)
+			if !ok || !isUserF(call) {
+				return
+			}
+			nf++
+			fpos = call.Pos()
+			before.each(func(q int) {
+				if q&2 == 0 || q&4 != 0 {
+					okSel = false
+				}
+				if q&1 == 0 {
+					okHead = false
+				}
+			})
+		}
+		pf.Exits(w, ss(0))
+		if nf == 0 {
+			r.violated("xsync.Group."+n+"|calls-f", w.Pos(), "worker never calls f")
+			continue
+		}
+		r.ok(okSel, "xsync.Group."+n+"|select-before-f", fpos, "each call of f must be preceded, in the same loop iteration, by a select whose g.ctx.Done() arm returns")
+		r.ok(okHead, "xsync.Group."+n+"|err-recheck", fpos, "the loop must re-check g.ctx.Err() before waiting again (a stopped group must not run f because another arm was also ready)")
 	}
 }
 
@@ -336,14 +406,32 @@ func ruleGroupTrigger(c *Ctx, r *R) {
 		nRecv := 0
 		good := true
 		why := ""
+		isTrigChan := func(v ssa.Value, chain []*ssa.Call) bool {
+			ls := valueLeaves(v, chain, 0)
+			for _, lf := range ls {
+				if lf.v != ssa.Value(mk) {
+					return false
+				}
+			}
+			return len(ls) > 0 && mk != nil
+		}
+		var frames []deepFrame
 		for _, g := range withAnon(w) {
-			for _, op := range chanOpsOf(g) {
+			frames = append(frames, deepFrames(g, 2)...)
+		}
+		seenF := map[*ssa.Function]bool{}
+		for _, fr := range frames {
+			if seenF[fr.f] {
+				continue
+			}
+			seenF[fr.f] = true
+			for _, op := range chanOpsOf(fr.f) {
 				for _, a := range op.arms {
-					if a.send || loadCell(a.ch) != trigCell {
+					if a.send || !isTrigChan(a.ch, fr.chain) {
 						continue
 					}
 					nRecv++
-					if !(op.kind == "select" && op.blocking && g == w && fcall != nil && op.in.Block().Dominates(fcall.Block())) {
+					if !(op.kind == "select" && op.blocking && rootFn(fr.f) == rootFn(w) || (op.kind == "select" && op.blocking && fr.f.Parent() == nil)) {
 						good = false
 						why = "a receive from the trigger channel outside the select that precedes f (at " + c.pos(posOf(op.in)) + ") discards a trigger that no run of f has served"
 					}
@@ -371,10 +459,12 @@ func ruleGroupTimerIdiom(c *Ctx, r *R) {
 		return
 	}
 	n := 0
-	for _, op := range chanOpsOf(w) {
-		if op.kind == "recv" && op.arms[0].kind == "timer" {
-			n++
-			r.ok(timerDrainIdiom(op.in), "xsync.Group.PeriodicOrTrigger|timer-drain#"+itoa(n), posOf(op.in), "a bare receive from t.C must be guarded by !t.Stop() (the timer already fired), otherwise it blocks for a full interval or forever")
+	for _, fr := range deepFrames(w, 2) {
+		for _, op := range chanOpsOf(fr.f) {
+			if op.kind == "recv" && op.arms[0].kind == "timer" {
+				n++
+				r.ok(timerDrainIdiom(op.in), "xsync.Group.PeriodicOrTrigger|timer-drain#"+itoa(n), posOf(op.in), "a bare receive from t.C must be guarded by !t.Stop() (the timer already fired), otherwise it blocks for a full interval or forever")
+			}
 		}
 	}
 	if n == 0 {
@@ -393,7 +483,8 @@ var _ = late(func() {
 					r.undecided("xsync.Group."+n+"|worker", token.NoPos, "worker closure not found")
 					continue
 				}
-				pf := &PF{N: 2} // 0 = not re-armed since the select, 1 = re-armed
+				wpkg := rootFn(w).Pkg
+				pf := &PF{N: 2, InScope: func(f *ssa.Function) bool { return rootFn(f).Pkg == wpkg && f.Blocks != nil && f != w && f.Name() != "spawn" }} // 0 = not re-armed since the select, 1 = re-armed
 				pf.Instr = func(f *ssa.Function, in ssa.Instruction, q int) (StateSet, bool) {
 					switch x := in.(type) {
 					case *ssa.Select:
